@@ -14,14 +14,19 @@ CHECKS = {
     'C17': ('Lean theorems C17.* (lines = depth-first pieces, no stored line has a boundary, str form, '
             'round trip, append/+ = concatenation, trim, chunk, cond_chunk) for all content trees; model tied to '
             'text_gen.py/misc_utils.py by differential runs over generated content trees; the monitor '
-            'evaluates the same specification on the implementation output.', '§6 C17', ''),
+            'evaluates the same specification on the implementation output. Over object histories (C17Hist): a TextBlock '
+            'under any sequence of append/+=/trim/indent/set_indentor/lines=/+/pour/str keeps the no-line-break invariant '
+            '(step_inv, hist_no_break) and its string form is header + CURRENT lines (hist_str); tie: the same histories '
+            'on one real object (tb.hist).', '§0.7 round 4, §6 C17', ''),
     'C18': ('Lean theorems C18.* (every clause of the indentation specification holds for all '
             'configurations and line sequences; length, text preservation, bullet width, header, '
-            'composition, to_str = to_list); tie: differential runs through Indentizer.to_list/to_str '
-            'and TextBlock.indent.', '§6 C18', ''),
+            'composition, to_str = to_list; indentation inside object histories: C17.hist_indent); tie: differential runs through '
+            'Indentizer.to_list/to_str, TextBlock.indent and object histories (tb.hist).', '§6 C18', ''),
     'C19': ('Lean theorems C19.* (every rendered comment line is "//" or "// "+text for all content); '
-            'tie: differential runs of cpp_gen.Comment on hostile text; object-unchanged and re-render '
-            'clauses are monitored on the implementation.', '§6 C19', ''),
+            'C17.hist_comment: in every state a Comment object reaches by extension/trim/+/pour/render, in any order, it renders '
+            'as the // rendering of its current lines; C19.files_code_independent for the files clause; '
+            'tie: differential runs of cpp_gen.Comment on hostile text, Comment object histories, build pairs that differ '
+            'only in copyright/creator (incl. texts whose first line already looks like a comment).', '§6 C19', ''),
 }
 
 CHECKS.update({
@@ -67,7 +72,7 @@ CHECKS.update({
             'witness of the D-9 race; tie: real shells with a threaded mock pump, 2-3 client threads + dispatcher thread, '
             'g++ runs monitored against the holder specification, clang++ ThreadSanitizer runs for data races.', '§6 C11',
             'C++ memory model, std::mutex, the real dzn::pump are not exhibited by the model; schedules are sampled by the OS.'),
-    'C12': ('Lean theorems C12.* (builder state machine is history free, outputs of a history = fresh builds, support files stand alone); tie: histories of builds on shared parsed models, sibling models (same names, other meanings) and colliding prefixes, deep before/after snapshots, every result compared with a fresh interpreter and with the model.',
+    'C12': ('Lean theorems C12.* (builder state machine is history free, outputs of a history = fresh builds, support files stand alone; on the heap model of the scoping layer DznModel.ScopingHeap - NamespaceIds as references to mutable list cells - step_frame: an operation changes no pre-existing object except the target of += / pop, step_fresh: results of +, deepcopy, sum, scope_resolution_order, fqn, fqn_member_name and conversions are new objects, run_frame over histories, sro_refines/add_refines: values agree with the pure model); tie: heap histories on real NamespaceIds/NamespaceTree objects (contents of every live object and the sharing of list objects compared after every step), histories of builds on shared parsed models, sibling models (same names, other meanings) and colliding prefixes, deep before/after snapshots, one Builder and one Configuration object edited in place per history, every result compared with a fresh interpreter and with the model.',
             '§6 C12', 'Purity of the model is by construction; the substance for the implementation is the tie.'),
     'C13': ('Lean theorems C13.* (trichotomy of build: files / library error, never internal; complete_file_set; valid_succeeds for the declarative predicate Valid with a worked instance; invalid_fails per class of invalid input); tie + monitor: valid cases and every applicable single-fault variation (incl. ALL next to REMAINING/ALL, ambiguous port type), outcome class and file-name list compared with the byte-exact Lean model of Builder.build which carries Python failure modes; generator-labelled expectation as independent oracle.',
             '§0, §6 C13', ''),
